@@ -133,28 +133,37 @@ Definition add_tag (full : bool) (skip : nat) (c : tclass) (n : Z) (md : tmode) 
   then ((if implicit then skip else pred skip), [])
   else ((if implicit then S skip else skip), [(c, n)]).
 
-(* flags = 0 ([full = false]) or AFT_FULL_COLLECT; None = the C returns -1 *)
-Fixpoint ctags (ds : list tdef) (fuel : nat) (full : bool) (count skip : nat)
-         (tg : option mtag) (b : body) : option (list etag) :=
-  let '(skip1, own) := match tg with
-                       | Some t => add_tag full skip (tg_class t) (tg_num t) (tg_mode t)
-                       | None => (skip, [])
-                       end in
-  let count1 := (count + length own)%nat in
+(* the expression's own tag, if any: "if(expr->tag.tag_class != TC_NOCLASS) ADD_TAG(skip, expr->tag)" *)
+Definition own_tag (full : bool) (skip : nat) (tg : option mtag) : nat * list etag :=
+  match tg with
+  | Some t => add_tag full skip (tg_class t) (tg_num t) (tg_mode t)
+  | None => (skip, [])
+  end.
+
+(* flags = 0 ([full = false]) or AFT_FULL_COLLECT; None = the C returns -1.  [cbody] is the
+   part of asn1f_fetch_tags_impl after the own tag; [count] = tags collected so far. *)
+Fixpoint cbody (ds : list tdef) (fuel : nat) (full : bool) (count skip : nat) (b : body) : option (list etag) :=
   match b with
-  | BOther u => Some (own ++ snd (add_tag full skip1 CUniversal u MDefault))
+  | BOther u => Some (snd (add_tag full skip CUniversal u MDefault))
   | BOpen => None
-  | BChoice => if Nat.eqb count1 0 then None else Some own
+  | BChoice => if Nat.eqb count 0 then None else Some []
   | BRef r =>
       match fuel with
       | O => None
       | S f =>
           match tlookup ds r with
           | None => None
-          | Some d => option_map (app own) (ctags ds f full count1 skip1 (td_tag d) (td_body d))
+          | Some d =>
+              let so := own_tag full skip (td_tag d) in
+              option_map (app (snd so)) (cbody ds f full (count + length (snd so)) (fst so) (td_body d))
           end
       end
   end.
+
+Definition ctags (ds : list tdef) (fuel : nat) (full : bool) (count skip : nat)
+           (tg : option mtag) (b : body) : option (list etag) :=
+  let so := own_tag full skip tg in
+  option_map (app (snd so)) (cbody ds fuel full (count + length (snd so)) (fst so) b).
 
 (* emit_tags_vectors: the vectors asn_DEF_x_tags[] (effective) and asn_DEF_x_all_tags[]; when
    either fetch fails nothing is emitted ("No effective tags") *)
